@@ -1,6 +1,7 @@
 package rules
 
 import (
+	"go/token"
 	"go/types"
 
 	"golang.org/x/tools/go/ssa"
@@ -20,6 +21,8 @@ func c17(c *Ctx) {
 	r.Rule("C17.brnetconn", "brNetConn.Read: while br != nil it reads through br into p truncated to br.Buffered(), returns that read's (n, err) and drops br only after a Buffered() == 0 observed after the read; with br == nil it delegates to the embedded connection; brNetConn declares no other net.Conn method")
 	r.Rule("C17.client-reader", "the reader handed to http.ReadResponse in DialContext is Conn.br of the Conn created by newConn on the dialed connection, and that Conn is the one returned; DialContext creates no other bufio.Reader")
 	r.Assume("bufio.Reader.Read with len(p) <= Buffered() returns buffered bytes without reading from the underlying connection")
+	r.Rule("C17.reader-stable", "the connection keeps the one reader it was built with: Conn.br is assigned only by newConn, and bufio.Reader.Reset is never called on Conn.br or on a brNetConn's reader (Reset discards the buffered bytes - frames that arrived together with the handshake)")
+	readerStable(c, "C17.reader-stable")
 
 	// ---- server reader choice
 	{
@@ -334,4 +337,72 @@ func c17client(c *Ctx) {
 		})
 		r.Check("C17.client-reader", shortFn(d.dial), "returned-conn-owns-that-reader", d.dial.Pos(), ok2 && n > 0, why2)
 	}
+}
+
+// readerStable: see C17.reader-stable.
+func readerStable(c *Ctx, rule string) {
+	r := c.R
+	brF, wrapF := c.P.Field("Conn", "br"), c.P.Field("brNetConn", "br")
+	nc := c.fn("newConn")
+	n := 0
+	for _, st := range c.P.FieldStoreSites(brF) {
+		n++
+		okS := false
+		for _, h := range c.hostsOf(st.Parent()) {
+			okS = h == nc
+		}
+		r.Check(rule, shortFn(st.Parent()), "writer-of-Conn.br", st.Pos(), okS, "Conn.br is assigned only by newConn (a reader installed later starts empty or smaller: buffered frames are lost, large control frames no longer fit)")
+	}
+	if n == 0 {
+		r.Fail(rule, shortFn(nc), "writer-of-Conn.br", nc.Pos(), "no store of Conn.br found")
+	}
+	fromReaderField := func(v ssa.Value) bool {
+		for depth := 0; depth < 6 && v != nil; depth++ {
+			switch x := v.(type) {
+			case *ssa.UnOp:
+				if fa, ok := x.X.(*ssa.FieldAddr); ok && (fieldOf(fa) == brF || fieldOf(fa) == wrapF) {
+					return true
+				}
+				return false
+			case *ssa.Phi:
+				for _, e := range x.Edges {
+					if u, ok := e.(*ssa.UnOp); ok {
+						if fa, ok2 := u.X.(*ssa.FieldAddr); ok2 && (fieldOf(fa) == brF || fieldOf(fa) == wrapF) {
+							return true
+						}
+					}
+				}
+				return false
+			case *ssa.ChangeType:
+				v = x.X
+			default:
+				return false
+			}
+		}
+		return false
+	}
+	bad := ""
+	var badPos token.Pos
+	for _, fn := range c.P.FuncList {
+		for _, b := range fn.Blocks {
+			for _, in := range b.Instrs {
+				ci, ok := in.(ssa.CallInstruction)
+				if !ok {
+					continue
+				}
+				callee := ci.Common().StaticCallee()
+				if callee == nil || extName(callee) != "(*bufio.Reader).Reset" || len(ci.Common().Args) == 0 {
+					continue
+				}
+				if fromReaderField(ci.Common().Args[0]) {
+					bad, badPos = shortFn(fn), in.Pos()
+				}
+			}
+		}
+	}
+	why := "no bufio.Reader.Reset on the connection's reader anywhere in the package"
+	if bad != "" {
+		why = bad + " calls Reset on the connection's bufio.Reader at " + c.P.Pos(badPos) + ": bytes already buffered (frames that arrived with the handshake) are discarded"
+	}
+	r.Check(rule, "package", "no-Reset-of-connection-reader", nc.Pos(), bad == "", why)
 }
